@@ -138,10 +138,14 @@ fn apply_diff_map<const N: usize, Key, Diff, Target, Name, Mapping>(
 		// Edit(a, b): This is also not possible as there's no target to edit.
 		// None:       This is not possible because we can't add (only valid action of members) a target without any stored information.
 		match diff.get_node_info() {
-			Action::Add(b) => {
+			action @ Action::Add(b) => {
 				let mut info = Mapping::from_key(key.clone());
 
-				info.get_names_mut()[target_namespace] = Some(b.clone());
+				// Goes through the same check as the other cases: the first namespace holds the keys,
+				// writing the new name there would give an entry whose key and first name differ.
+				info.get_names_mut()
+					.change_name(target_namespace, None, Some(b))
+					.with_context(|| anyhow!("cannot apply action {action:?} on non existing target for key {key:?}"))?;
 
 				let node = Target::new(info);
 
